@@ -20,7 +20,7 @@ import gen as G  # noqa: E402
 
 VERIF = G.VERIF
 VERUS = os.environ.get('VERIF_VERUS', 'verus')
-RLIMIT = os.environ.get('VERIF_RLIMIT', '30')
+RLIMIT = os.environ.get('VERIF_RLIMIT', '100')
 
 VERIF_KINDS = [
     'postcondition not satisfied',
